@@ -3,7 +3,9 @@ package backend
 import (
 	"context"
 
+	"github.com/ProtonMail/gluon/connector"
 	"github.com/ProtonMail/gluon/imap"
+	"github.com/ProtonMail/gluon/limits"
 )
 
 // VerifApplyUpdate delivers a connector update to a user of the backend through the real appliers (user.apply).
@@ -17,3 +19,19 @@ func VerifNewMessageCreated(id imap.MessageID, literal string, boxes ...imap.Mai
 }
 
 const VerifLit2 = verifLit2
+
+// CreateMailbox: the remote side accepts every new mailbox under a fresh id
+func (c *verifCredConn) CreateMailbox(ctx context.Context, cache connector.IMAPStateWrite, name []string) (imap.Mailbox, error) {
+	verifCredConnN++
+	return imap.Mailbox{ID: imap.MailboxID("mb-created-" + string(rune('0'+verifCredConnN%10)) + string(rune('a'+verifCredConnN/10%26))), Name: name,
+		Flags: imap.NewFlagSet(imap.FlagSeen, imap.FlagFlagged, imap.FlagDeleted), PermanentFlags: imap.NewFlagSet(imap.FlagSeen, imap.FlagFlagged, imap.FlagDeleted), Attributes: imap.NewFlagSet()}, nil
+}
+
+// VerifSetLimits gives every user of the backend the given limits (sessions opened afterwards inherit them).
+func VerifSetLimits(b *Backend, maxMailboxes, maxMessages uint32) {
+	lim := limits.NewIMAPLimits(maxMailboxes, maxMessages, imap.UID(1000), imap.UID(4294967295))
+	b.imapLimits = lim
+	for _, u := range b.users {
+		u.imapLimits = lim
+	}
+}
